@@ -256,6 +256,30 @@ class Interp:
                         out.append(x)
         return out
 
+    def _init_sets(self, c, name):
+        """does c.__init__ (or a method of c it calls on self, one level) assign self.<name> outside any branch or loop?"""
+        cache = self.__dict__.setdefault("_init_sets_cache", {})
+        key = (id(c), name)
+        if key in cache:
+            return cache[key]
+
+        def unconditional_sets(fn, depth):
+            out = set()
+            for st in fn.node.body:
+                for t in (st.targets if isinstance(st, ast.Assign) else [st.target] if isinstance(st, (ast.AnnAssign, ast.AugAssign)) else []):
+                    if isinstance(t, ast.Attribute) and isinstance(t.value, ast.Name) and t.value.id == "self":
+                        out.add(t.attr)
+                if depth == 0 and isinstance(st, ast.Expr) and isinstance(st.value, ast.Call) and isinstance(st.value.func, ast.Attribute) \
+                        and isinstance(st.value.func.value, ast.Name) and st.value.func.value.id == "self":
+                    m = self.class_lookup(c, st.value.func.attr)
+                    if isinstance(m, FuncVal):
+                        out |= unconditional_sets(m, 1)
+            return out
+        init = self.class_lookup(c, "__init__")
+        r = isinstance(init, FuncVal) and name in unconditional_sets(init, 0)
+        cache[key] = r
+        return r
+
     def class_lookup(self, c, name):
         for k in self.mro(c):
             if name in k.methods:
@@ -822,6 +846,10 @@ class Interp:
                         h = obj.attrs.get("__handler__")
                         return h(_n, a, k) if h else None
                     return BoundModel(o, rec, o.kind + "." + name)
+            if o.cls is not None and self._init_sets(o.cls, name):
+                # the REAL constructor gives every instance this attribute; the object at hand was put together by a contract
+                # that left it out: the contract's state description is incomplete - no verdict about the code
+                raise Unsupported("contract-built %s object lacks attribute '%s', which %s.__init__ always sets" % (o.cls.name, name, o.cls.name))
             raise PyExc("AttributeError", "'%s' object has no attribute '%s'" % (o.cls.name if o.cls else o.kind, name))
         if isinstance(o, ModuleRef):
             g = o.module().globals
